@@ -1,3 +1,145 @@
 import Driver.Common
-/-! Driver for property C17 (stub: the model for this property is not built yet). -/
-def main : IO Unit := Driver.run (fun (s : Unit) _ => (s, "unimplemented")) ()
+import TxdbusModel.Obj.Props
+/-!
+Driver for property C17 (model `Txdbus.Obj.Props`).  One line in, one line out.
+
+  reset                                   forget declarations and state                        -> ok
+  cfg repaired|original                   which code the model mirrors (default repaired)      -> ok
+  class                                   start the next class of the chain (most derived first) -> ok
+  iface <name> (<pname> <sig> <r> <w> <e>)*   append DBusInterface(name, Property...) to the current class's
+                                          dbusInterfaces; r,w in 0/1; e in t f i c             -> ok | typeerror
+  desc <attr> <pname> <iface|~>           DBusProperty(pname, iface) class attribute            -> ok
+  bind                                    build every class cache                               -> ok | declerr
+  export <o> | assign <o> <attr> <val> | get <o> <iface> <pname> | set <o> <iface> <pname> <val>
+  | getall <o> <iface>                                                                        -> outputs joined by " | "
+
+Strings are the hex of their code points (6 digits each, "-" = empty).  Values: N, I<int>, B0, B1, S<hex>,
+D<bits>, L:<hex>,<hex>...
+-/
+open Txdbus.Obj.Props
+
+namespace C17Drv
+
+structure DS where
+  cfg : Cfg := Cfg.repaired
+  classes : List ClassDef := []      -- reversed: current class is the head
+  bad : Bool := false
+  world : Option World := none
+  st : St := St.init
+
+def parseInt? (s : String) : Option Int :=
+  match s.toList with
+  | '-' :: t => (String.ofList t).toNat?.map fun n => -(Int.ofNat n)
+  | _ => s.toNat?.map Int.ofNat
+
+def parseVal? (s : String) : Option PyVal :=
+  match s.toList with
+  | ['N'] => some .none
+  | ['B', '0'] => some (.bool false)
+  | ['B', '1'] => some (.bool true)
+  | 'I' :: t => (parseInt? (String.ofList t)).map .int
+  | 'D' :: t => (String.ofList t).toNat?.map .dbl
+  | 'S' :: t => (Driver.hexToChars? (String.ofList t)).map .str
+  | 'L' :: ':' :: t =>
+    if t.isEmpty then some (.strs [])
+    else (((String.ofList t).splitOn ",").mapM Driver.hexToChars?).map .strs
+  | _ => none
+
+def showInt (n : Int) : String := if n < 0 then "-" ++ toString n.natAbs else toString n.natAbs
+
+def showVal : PyVal → String
+  | .none => "N"
+  | .int n => "I" ++ showInt n
+  | .bool b => if b then "B1" else "B0"
+  | .str s => "S" ++ Driver.charsToHex s
+  | .dbl b => "D" ++ toString b
+  | .strs l => "L:" ++ ",".intercalate (l.map Driver.charsToHex)
+
+def showErr : ErrCat → String
+  | .unknownObject => "unknownObject" | .unknownProp => "unknownProp" | .notReadable => "notReadable"
+  | .notWritable => "notWritable" | .unknownIface => "unknownIface" | .value => "value" | .noAttr => "noAttr"
+
+def showOut : Out → String
+  | .ret => "ret"
+  | .retV s w => s!"retv {Driver.charsToHex s} {showVal w}"
+  | .retD l => s!"retd {l.length}" ++ String.join (l.map fun e =>
+      s!" {Driver.charsToHex e.1} {Driver.charsToHex e.2.1} {showVal e.2.2}")
+  | .err e => "err " ++ showErr e
+  | .signal o i p s w => s!"sig {o} {Driver.charsToHex i} {Driver.charsToHex p} {Driver.charsToHex s} {showVal w}"
+  | .raised => "raised"
+  | .done => "done"
+
+def showOuts (l : List Out) : String := " | ".intercalate (l.map showOut)
+
+def parseProps : List String → Option (List RawProp)
+  | [] => some []
+  | n :: s :: r :: w :: e :: rest => do
+    let n ← Driver.hexToChars? n
+    let s ← Driver.hexToChars? s
+    let r ← (if r == "1" then some true else if r == "0" then some false else none)
+    let w ← (if w == "1" then some true else if w == "0" then some false else none)
+    let e ← (match e with
+      | "t" => some EmitsArg.true_ | "f" => some EmitsArg.false_
+      | "i" => some EmitsArg.invalidates | "c" => some EmitsArg.const | _ => none)
+    let tl ← parseProps rest
+    pure (⟨n, s, r, w, e⟩ :: tl)
+  | _ => none
+
+def runOp (d : DS) (op : Op) : DS × String :=
+  match d.world with
+  | none => (d, "nodecl")
+  | some W =>
+    let r := step d.cfg W d.st op
+    ({ d with st := r.1 }, showOuts r.2)
+
+def stepLine (d : DS) (line : String) : DS × String :=
+  match Driver.words line with
+  | ["reset"] => ({ cfg := d.cfg }, "ok")
+  | ["cfg", "repaired"] => ({ d with cfg := Cfg.repaired }, "ok")
+  | ["cfg", "original"] => ({ d with cfg := Cfg.original }, "ok")
+  | ["class"] => ({ d with classes := ⟨[], []⟩ :: d.classes }, "ok")
+  | "iface" :: name :: rest =>
+    match d.classes, Driver.hexToChars? name, parseProps rest with
+    | c :: cs, some name, some raw =>
+      match mkIface name raw with
+      | some f => ({ d with classes := { c with ifaces := c.ifaces ++ [f] } :: cs }, "ok")
+      | none => ({ d with bad := true }, "typeerror")
+    | _, _, _ => (d, "parse-error")
+  | ["desc", a, p, i] =>
+    match d.classes, Driver.hexToChars? a, Driver.hexToChars? p with
+    | c :: cs, some a, some p =>
+      let i? : Option (Option Str) := if i == "~" then some none else (Driver.hexToChars? i).map some
+      match i? with
+      | some i => ({ d with classes := { c with descs := c.descs ++ [⟨a, p, i⟩] } :: cs }, "ok")
+      | none => (d, "parse-error")
+    | _, _, _ => (d, "parse-error")
+  | ["bind"] =>
+    if d.bad then (d, "declerr") else
+    match elaborate d.classes.reverse with
+    | some W => ({ d with world := some W, st := St.init }, "ok")
+    | none => (d, "declerr")
+  | ["export", o] =>
+    match o.toNat? with
+    | some o => runOp d (.export o)
+    | none => (d, "parse-error")
+  | ["assign", o, a, v] =>
+    match o.toNat?, Driver.hexToChars? a, parseVal? v with
+    | some o, some a, some v => runOp d (.assign o a v)
+    | _, _, _ => (d, "parse-error")
+  | ["get", o, i, p] =>
+    match o.toNat?, Driver.hexToChars? i, Driver.hexToChars? p with
+    | some o, some i, some p => runOp d (.get o i p)
+    | _, _, _ => (d, "parse-error")
+  | ["set", o, i, p, v] =>
+    match o.toNat?, Driver.hexToChars? i, Driver.hexToChars? p, parseVal? v with
+    | some o, some i, some p, some v => runOp d (.set o i p v)
+    | _, _, _, _ => (d, "parse-error")
+  | ["getall", o, i] =>
+    match o.toNat?, Driver.hexToChars? i with
+    | some o, some i => runOp d (.getAll o i)
+    | _, _ => (d, "parse-error")
+  | _ => (d, "parse-error")
+
+end C17Drv
+
+def main : IO Unit := Driver.run C17Drv.stepLine {}
